@@ -193,12 +193,51 @@ def run(prop, tier):
     return chk.finish()
 
 
+def field_universe():
+    """Every optional part of the AST as declared in ast/ast.go: 'Type.Field' for pointer / interface / slice / string fields (set at least once),
+    'Type.Field[2+]' for slices, 'Type.Field=true|false' for bools and 'Type.Field=<value>' for each constant of an enum type."""
+    import re
+    src = open(os.path.join(common.REPO, "ast", "ast.go")).read()
+    consts = open(os.path.join(common.REPO, "ast", "ast_const.go")).read()
+    enums = {}
+    for m in re.finditer(r'^\s*\w+\s+(\w+)\s*=\s*"([^"]*)"', consts, re.M):
+        enums.setdefault(m.group(1), []).append(m.group(2))
+    uni = []
+    for m in re.finditer(r"^type (\w+) struct \{\n(.*?)^\}", src, re.M | re.S):
+        t = m.group(1)
+        if t.startswith("Bad"):
+            continue
+        for line in m.group(2).split("\n"):
+            line = line.split("//")[0].strip()
+            if not line:
+                continue
+            parts = line.split()
+            if len(parts) < 2:
+                continue
+            names = [n.strip(",") for n in parts[:-1]]
+            ty = parts[-1]
+            for n in names:
+                key = t + "." + n
+                if ty == "bool":
+                    uni += [key + "=true", key + "=false"]
+                elif ty in enums:
+                    uni += [key + "=" + v for v in enums[ty] if v != ""]
+                elif ty.startswith("[]"):
+                    uni += [key, key + "[2+]"]
+                elif ty == "token.Pos":
+                    pass
+                else:
+                    uni.append(key)
+    return uni
+
+
 def run_into(chk, prop, tier, wd):
     os.makedirs(wd, exist_ok=True)
     total = 0
     all_findings = []     # (tapes file, finding)
     model_dev = 0
     kinds = {}
+    fields = {}
     tape_files = corpora(chk, prop, tier, wd)
     for (tapes, n) in tape_files:
         if n == 0:
@@ -210,6 +249,8 @@ def run_into(chk, prop, tier, wd):
         chk.cov["evaluations"] += stats["evals"].get(prop, 0)
         for k, v in stats["kinds"].items():
             kinds[k] = kinds.get(k, 0) + v
+        for k, v in stats.get("fields", {}).items():
+            fields[k] = fields.get(k, 0) + v
         for f in findings:
             if f["prop"] == prop:
                 all_findings.append((tapes, f))
@@ -292,6 +333,13 @@ def run_into(chk, prop, tier, wd):
         chk.notes["node_kinds_not_reached"] = sorted(k for k in allk if k not in kinds)
     except Exception:
         pass
+    try:
+        uni = field_universe()
+        chk.notes["ast_field_values_total"] = len(uni)
+        chk.notes["ast_field_values_reached"] = len([u for u in uni if u in fields])
+        chk.notes["ast_field_values_not_reached"] = sorted(u for u in uni if u not in fields)
+    except Exception as e:
+        chk.notes["ast_field_values_error"] = str(e)
     chk.notes["model_deviations"] = model_dev
     # confirm in a fresh process: re-run the tapes of the findings only
     confirmed = confirm(prop, tier, all_findings, wd)
